@@ -63,6 +63,7 @@ type Scenario struct {
 	Op     string          `json:"op"` // flatten | replacearcs | xmonotone
 	Closed bool            `json:"closed"`
 	Pre    bool            `json:"pre"`
+	Post   bool            `json:"post"` // a closed triangle sub-path follows the sub-path of the curve
 	Tn     int             `json:"tn"`
 	Td     int             `json:"td"`
 	Emb    latgeo.Emb      `json:"emb"`
@@ -74,6 +75,7 @@ type Event struct {
 	Cv     Curve      `json:"cv"`
 	Closed bool       `json:"closed"`
 	Pre    bool       `json:"pre"`
+	Post   bool       `json:"post"`
 	Tn     int        `json:"tn"`
 	Td     int        `json:"td"`
 	Out    [][][2]int `json:"out"`
@@ -94,6 +96,15 @@ func (s *Scenario) q() int {
 		return 32
 	}
 	return 16
+}
+
+// postTri: the closed triangle that follows the curve's sub-path in the "post" variant (spec PostTri), lattice units.
+func (s *Scenario) postTri() [3][2]int {
+	T, u := 200, 10
+	if s.Cv.Type == "quad" || s.Cv.Type == "cubic" {
+		T, u = 5, 1
+	}
+	return [3][2]int{{T, 0}, {T + u, 0}, {T + u, u}}
 }
 
 func (s *Scenario) describe() string {
@@ -133,6 +144,10 @@ func (s *Scenario) describe() string {
 	}
 	if s.Closed {
 		b.WriteString("z")
+	}
+	if s.Post {
+		t := s.postTri()
+		fmt.Fprintf(&b, "M%d %dL%d %dL%d %dz", t[0][0], t[0][1], t[1][0], t[1][1], t[2][0], t[2][1])
 	}
 	return fmt.Sprintf("%s .%s(t=%d/%d) emb=%s", b.String(), s.Op, s.Tn, s.Td, s.Emb.Name)
 }
@@ -193,6 +208,13 @@ func (s *Scenario) build() *canvas.Path {
 	if s.Closed {
 		p.Close()
 	}
+	if s.Post {
+		t := s.postTri()
+		p.MoveTo(m(t[0]))
+		p.LineTo(m(t[1]))
+		p.LineTo(m(t[2]))
+		p.Close()
+	}
 	return p
 }
 
@@ -228,7 +250,7 @@ func observe(s *Scenario, guard bool) (ev Event, kind string, msg any) {
 	if kind != "" {
 		return
 	}
-	ev = Event{Op: s.Op, Cv: s.Cv, Closed: s.Closed, Pre: s.Pre, Tn: s.Tn, Td: s.Td, Ok: true, Out: [][][2]int{}, Cls: []bool{}, Xs: [][]int{}}
+	ev = Event{Op: s.Op, Cv: s.Cv, Closed: s.Closed, Pre: s.Pre, Post: s.Post, Tn: s.Tn, Td: s.Td, Ok: true, Out: [][][2]int{}, Cls: []bool{}, Xs: [][]int{}}
 	segs, err := oracle.Decode(r.Data())
 	if err != nil {
 		return ev, "undecodable", err.Error()
@@ -292,8 +314,12 @@ func observe(s *Scenario, guard bool) (ev Event, kind string, msg any) {
 		ev.Out[k] = pl
 	}
 	ev.Sq = []int{}
-	if n := len(ev.Out); n > 0 {
-		pl := ev.Out[n-1]
+	ci := 0 // index of the curve's sub-path
+	if s.Pre {
+		ci = 1
+	}
+	if ci < len(ev.Out) {
+		pl := ev.Out[ci]
 		for i := 0; i+1 < len(pl); i++ {
 			dx, dy := float64(pl[i+1][0]-pl[i][0]), float64(pl[i+1][1]-pl[i][1])
 			l2 := dx*dx + dy*dy
@@ -385,6 +411,9 @@ func variantTag(s *Scenario) string {
 	if s.Pre {
 		t += "+second-subpath"
 	}
+	if s.Post {
+		t += "+followed-by-closed-subpath"
+	}
 	return t
 }
 
@@ -448,6 +477,7 @@ func cfg(fam string, n, num int) string {
 }
 
 var rotEmbs = []latgeo.Emb{latgeo.Symmetries[1], latgeo.Translate, latgeo.Huge, latgeo.Pyth, latgeo.Rot17, latgeo.Symmetries[4], {Name: "scale0.25", A: 0.25, D: 0.25}}
+var tinyEmb = latgeo.Emb{Name: "scale1e-3", A: 1e-3, D: 1e-3}
 var xEmbs = []latgeo.Emb{latgeo.Translate, latgeo.Huge, {Name: "scale0.25", A: 0.25, D: 0.25}}
 
 func hash(s string) uint32 {
@@ -464,7 +494,7 @@ type item struct {
 }
 
 func (d Driver) Run(c *core.Ctx) error {
-	c.Rule = "scenario = exact curve printed by spec/Curves.tla (every quadratic Bezier with control points on the 4x4 lattice, RandomSubset of cubics, arcs of the radius-65 circle / 2:1 ellipse (rotation 0, 90) between integer points with both sweep directions, the chord-equals-rx arcs, the 30 chains [near-straight curve A][line][curve B] in one sub-path) x variant (open, closed by z, preceded by a straight sub-path) x call (Flatten at t0, t0/4, t0/16; ReplaceArcs; XMonotone) x similarity embedding; every logged output is judged by spec/Trace_Curves.tla (structure, way-points within 6t of the polyline in order, vertices within 1.5t + gap of the curve in order, annulus for arcs, x-monotone pieces); evaluations = real calls; non-trivial = distinct (curve, variant, call) whose output has at least 3 vertices"
+	c.Rule = "scenario = exact curve printed by spec/Curves.tla (every quadratic Bezier with control points on the 4x4 lattice, RandomSubset of cubics, arcs of the radius-65 circle / 2:1 ellipse (rotation 0, 90) between integer points with both sweep directions, the chord-equals-rx arcs, the 30 chains [near-straight curve A][line][curve B] in one sub-path) x variant (open / closed by z, preceded by a straight sub-path or not, followed by a closed triangle sub-path or not) x call (Flatten at t0, t0/4, t0/16; ReplaceArcs; XMonotone) x similarity embedding; every logged output is judged by spec/Trace_Curves.tla (structure, way-points within 6t of the polyline in order, vertices within 1.5t + gap of the curve in order, annulus for arcs, x-monotone pieces); evaluations = real calls; non-trivial = distinct (curve, variant, call) whose output has at least 3 vertices"
 	c.Assumptions = []string{
 		"t0 = 1/10 lattice unit for Beziers (lattice 0..3), 13/10 for arcs of radius 65; outputs are mapped back through the embedding and quantised at Q = 1024 (Beziers), 32 (circle), 16 (ellipse) per unit; every radius carries +2 quantisation slack",
 		"c = 4 for way-points and 1.5 for vertices are the calibrated constants of DESIGN section 5 C03",
@@ -496,16 +526,17 @@ func (d Driver) Run(c *core.Ctx) error {
 					t0n, tds = 5, []int{2, 8, 32} // t0 = 5/2 on the 0..150 lattice
 				}
 				// variant: open / closed / preceded by a line sub-path
-				variants := []uint32{h % 4}
+				// plus "post" (bit 2): a closed triangle sub-path follows
+				variants := []uint32{h % 8}
 				if base.Cv.Type == "chain" {
-					variants = []uint32{0, 1, 2, 3} // open, closed, second sub-path, both
+					variants = []uint32{0 + 4*(h%2), 1 + 4*((h/2)%2), 2 + 4*((h/4)%2), 3 + 4*((h/8)%2)} // open, closed, second sub-path, both
 				}
 				var local []item
 				for _, vr := range variants {
-					closed, pre := vr == 1 || vr == 3, vr >= 2
+					closed, pre, post := vr%4 == 1 || vr%4 == 3, vr%4 >= 2, vr >= 4
 					emit := func(op string, tn, td int, e latgeo.Emb) {
 						s := base
-						s.Op, s.Tn, s.Td, s.Emb, s.Closed, s.Pre = op, tn, td, e, closed, pre
+						s.Op, s.Tn, s.Td, s.Emb, s.Closed, s.Pre, s.Post = op, tn, td, e, closed, pre, post
 						atomic.AddInt64(&nCalls, 1)
 						ev, kind, msg := observe(&s, false)
 						if kind != "" {
@@ -521,6 +552,12 @@ func (d Driver) Run(c *core.Ctx) error {
 					emit("flatten", t0n, tds[int(h/5)%3], e1)
 					if c.Thorough() || base.Cv.Type == "chain" {
 						emit("flatten", t0n, tds[0], rotEmbs[int(h/11)%len(rotEmbs)])
+					}
+					if base.Cv.Type == "arc" && (base.Cv.Shape == "ellipse" || base.Cv.Shape == "ellipse90") {
+						// tolerances below the package default canvas.Tolerance = 0.01: rx = 0.13, t = 1.3e-3 .. 8e-5
+						for _, td := range tds {
+							emit("flatten", t0n, td, tinyEmb)
+						}
 					}
 					if base.Cv.Type == "arc" {
 						emit("replacearcs", 0, 1, latgeo.Identity)
@@ -595,7 +632,7 @@ func (d Driver) Run(c *core.Ctx) error {
 			c.Count(0, 0, 1)
 			it := items[i]
 			if len(it.ev.Out) > 0 && len(it.ev.Out[len(it.ev.Out)-1]) >= 3 {
-				key := fmt.Sprintf("%v|%v|%v|%s|%d", it.s.Cv, it.s.Closed, it.s.Pre, it.s.Op, it.s.Td)
+				key := fmt.Sprintf("%v|%v|%v|%v|%s|%d", it.s.Cv, it.s.Closed, it.s.Pre, it.s.Post, it.s.Op, it.s.Td)
 				if !seen[key] {
 					seen[key] = true
 					nontriv++
